@@ -11,5 +11,8 @@ import sys; sys.path.insert(0, '.')
 from pyvc import leanback
 r, names = leanback.algebra_status(); print('lean Algebra.lean ok=%s %.0fs' % (r['ok'], r['seconds']))
 st = leanback.edwards_status(); print('lean Edwards ok=%s %ss' % (st['ok'], st.get('seconds')))
+ps = leanback.primes_status(); print('lean Primes ok=%s %ss' % (ps['ok'], ps.get('seconds')))
+for part in ('abstract', 'curve'):
+    b = leanback.bridge_status(part); print('lean Bridge(%s) ok=%s %ss, %d statements proved' % (part, b['ok'], b.get('seconds'), len(b['names'])))
 " || echo "lean warm-up failed (checks will report it)"
 exit 0
